@@ -202,6 +202,11 @@ class Generator(CodeGenerator):
         output_builder.with_file("rpc.h", "rpc.h.j2", {"fcp": fcp})
 
         for protocol in fcp.get_protocols():
+            # fcp.h already is the rendering of the implicit "default" protocol
+            # (and "default" is not a valid C++ namespace name)
+            if protocol == "default":
+                continue
+
             output_builder.with_file(
                 "fcp_" + protocol + ".h",
                 "fcp.h.j2",
